@@ -54,6 +54,10 @@ struct Inner {
     max_yields: u64,
     p_sleep: u64,
     p_long_sleep: u64,
+    /// multi-thread runtime only: probability (percent) of a short thread sleep at a synchronous
+    /// event that lies between two steps the code does not do atomically (preemption there is
+    /// something a multi-thread runtime can always do)
+    p_sync_delay: u64,
     gates: Vec<Gate>,
     infeasible: u64,
     points_hit: HashMap<String, u64>,
@@ -81,6 +85,17 @@ impl SchedHandler {
 
 impl Handler for SchedHandler {
     fn event(&self, name: &'static str, args: &[u64]) {
+        if name == "binder.table_resolved" {
+            // not a version-manager event: no trace entry, only a possible preemption
+            let us = {
+                let mut g = self.inner.lock().unwrap();
+                if g.p_sync_delay > 0 && g.rng.below(100) < g.p_sync_delay { 200 + g.rng.below(1000) } else { 0 }
+            };
+            if us > 0 {
+                std::thread::sleep(Duration::from_micros(us));
+            }
+            return;
+        }
         self.log_event(name, args);
     }
 
@@ -356,6 +371,7 @@ async fn run(sc: Value, multi_thread: bool) -> Value {
             max_yields: sc["max_yields"].as_u64().unwrap_or(3),
             p_sleep: if multi_thread { 0 } else { sc["p_sleep"].as_u64().unwrap_or(10) },
             p_long_sleep: if multi_thread { 0 } else { sc["p_long_sleep"].as_u64().unwrap_or(0) },
+            p_sync_delay: if multi_thread { sc["p_sync_delay"].as_u64().unwrap_or(0) } else { 0 },
             gates,
             infeasible: 0,
             points_hit: HashMap::new(),
